@@ -333,13 +333,18 @@ class Binding(TypedExpression):
             val_indent = indent
 
         value_expr = coerce_expression(self.value)
-        value_after = list(value_expr.after)
+        # Same-line comments of an `assert …;` line are part of the value; only
+        # what trails the whole value moves behind the binding's semicolon.
+        inner = min(getattr(value_expr, "after_semicolon_count", 0), len(value_expr.after))
+        value_after = list(value_expr.after[inner:])
         if value_after:
             source_value = value_expr
             value_expr = shared_render_variant(
                 "value-without-after",
                 source_value,
-                lambda: source_value.model_copy(update={"after": []}),
+                lambda: source_value.model_copy(
+                    update={"after": list(source_value.after[:inner])}
+                ),
             )
         if not value_layout.on_newline and any(
             isinstance(item, Comment) for item in value_expr.before
